@@ -890,12 +890,17 @@ func (o *Node) setNotFound(path Path, n *Node) error {
 		size := int(thrift.BinaryEncoding{}.DecodeInt32(buf))
 		thrift.BinaryEncoding{}.EncodeInt32(buf, int32(size+1))
 	case thrift.MAP:
+		// key bytes are encoded by the map's key type (1st byte of the map header, 6B before the entries)
+		kt := *(*thrift.Type)(rt.SubPtr(o.v, uintptr(6)))
+		key := path.ToRaw(kt)
+		if key == nil {
+			return errNode(meta.ErrDismatchType, fmt.Sprintf("path %s dismatches map key type %s", path, kt), nil)
+		}
 		// modify the original size
 		buf := rt.BytesFrom(rt.SubPtr(o.v, uintptr(4)), 4, 4)
 		size := int(thrift.BinaryEncoding{}.DecodeInt32(buf))
 		thrift.BinaryEncoding{}.EncodeInt32(buf, int32(size+1))
 		// add key bytes
-		key := path.ToRaw(n.t)
 		src := n.raw()
 		buf = make([]byte, 0, len(key)+len(src))
 		buf = append(buf, key...)
